@@ -184,6 +184,9 @@ pub struct Session {
     pub failures: Vec<Failure>,
     pub extra: BTreeMap<String, Value>,
     pub exhaustive: bool,
+    /// E2E cases whose real-time wait expired without a verdict: exit 2 (never a violation)
+    pub e2e_inconclusive: u64,
+    pub shrink_iters: u32,
     start: Instant,
 }
 
@@ -245,6 +248,8 @@ impl Session {
             failures: vec![],
             extra: BTreeMap::new(),
             exhaustive: false,
+            e2e_inconclusive: 0,
+            shrink_iters: 600,
             start: Instant::now(),
         }
     }
@@ -306,7 +311,7 @@ impl Session {
                     let cfg = Config {
                         cases: cases_per_worker,
                         failure_persistence: None,
-                        max_shrink_iters: 600,
+                        max_shrink_iters: this.shrink_iters,
                         max_global_rejects: 1_000_000,
                         ..Config::default()
                     };
@@ -537,6 +542,10 @@ impl Session {
             self.start.elapsed().as_secs_f64()
         );
         if self.failures.is_empty() {
+            if self.e2e_inconclusive > 0 {
+                println!("INCONCLUSIVE property={} {} end-to-end cases ended without a verdict (real-time wait expired without a panic); see evidence", self.prop, self.e2e_inconclusive);
+                return 2;
+            }
             0
         } else {
             for f in &self.failures {
